@@ -100,7 +100,10 @@ def _wrap(fn, label, is_method):
                 if kind == 'arg' and st['exempt'].get(f'{label}:{name}') == 'may-add-entries' and sp[0] == 'pd':
                     # documented exemption of the contract file: the function may append entries to this Series; the entries it was given must be unchanged
                     try:
-                        now = now.loc[sp[1].index]
+                        sub = now.loc[sp[1].index]
+                        # adding an entry of another type turns the Series into dtype object: compare entry by entry
+                        if len(sub) == len(sp[1]) and all((a is b) or (a == b) or (a != a and b != b) for a, b in zip(list(sub.values), list(sp[1].values))):
+                            continue
                     except Exception:   # noqa
                         pass
                 if not _same(sp, now):
